@@ -59,7 +59,7 @@ fn mk(version: u32, sig_prefix: &str, text: &[u8], key: &str, value: u64, time: 
     sig.extend(push(text));
     let mut spk = push(&unhex(key));
     spk.push(0xac);
-    let tx = Tx { version: 1, segwit: false, inputs: vec![TxIn::coinbase(sig)], outputs: vec![TxOut { value, script: spk }], locktime: 0 };
+    let tx = Tx { version: 1, segwit: false, inputs: vec![TxIn::coinbase(sig)], outputs: vec![TxOut { value, script: spk }], locktime: 0, wide: 0 };
     Block::build(version, [0u8; 32], time, bits, nonce, vec![tx])
 }
 
